@@ -26,6 +26,19 @@ VERIF = os.path.dirname(os.path.dirname(os.path.abspath(__file__)))
 def _apply(src_root: str, entry: T.Dict[str, T.Any], dst: str) -> T.Optional[str]:
     """Copy the package and apply the edits.  Returns a skip reason or None."""
     shutil.copytree(os.path.join(src_root, "src", "bumpver"), os.path.join(dst, "src", "bumpver"))
+    if entry.get("patch"):
+        import subprocess
+        p = subprocess.run(["git", "apply", "--include=src/bumpver/*", entry["patch"]], cwd=dst, stdout=subprocess.PIPE, stderr=subprocess.STDOUT)
+        if p.returncode != 0:
+            return "patch does not apply to the current source: " + p.stdout.decode("utf-8", "replace").strip()[:120]
+        for root, _d, files in os.walk(os.path.join(dst, "src", "bumpver")):
+            for f in files:
+                if f.endswith(".py"):
+                    try:
+                        ast.parse(open(os.path.join(root, f), encoding="utf-8").read())
+                    except SyntaxError as ex:
+                        return f"patched {f} does not parse: {ex}"
+        return None
     for fname, old, new in entry["edits"]:
         path = os.path.join(dst, "src", "bumpver", fname)
         with open(path, encoding="utf-8") as fobj:
@@ -81,6 +94,19 @@ def run_for(prop: str, repo: str, jobs: int = 16) -> T.Dict[str, T.Any]:
     sys.path.insert(0, VERIF) if VERIF not in sys.path else None
     cat = importlib.import_module("selftest.catalogue")
     entries = [e for e in cat.CATALOGUE if e["prop"] == prop]
+    # independent seeded changes (sub-agents): the property's own check must fire
+    import glob
+    for meta in sorted(glob.glob(os.path.join(VERIF, "seeded", f"{prop}-*", "meta.json"))):
+        try:
+            m = json.load(open(meta))
+        except Exception:
+            continue
+        if m.get("own_check_fires"):
+            entries.append({"prop": prop, "name": "seeded " + os.path.basename(os.path.dirname(meta)), "kind": "fires", "edits": [], "expect": "",
+                            "patch": os.path.join(os.path.dirname(meta), "patch.diff")})
+    # behaviour-preserving refactorings (sub-agents): this check must stay silent and must not give up
+    for pth in sorted(glob.glob(os.path.join(VERIF, "benign", "*", "patch.diff"))):
+        entries.append({"prop": prop, "name": "benign " + os.path.basename(os.path.dirname(pth)), "kind": "silent", "edits": [], "expect": "", "patch": pth})
     if not entries:
         return {"fired": 0, "fires_expected": 0, "silent": 0, "silent_expected": 0, "failures": [], "skipped": [], "results": []}
     with mp.get_context("fork").Pool(min(jobs, len(entries))) as pool:
